@@ -809,6 +809,21 @@ def run(res, tier):
     res.instance("C10.8.periodic-real-tree", "model size", "rules/decomp.py", "%d (target leaf cell, unwrapped source leaf cell) pairs examined" % npairs)
     res.obligations += npairs
     res.discharged += npairs if not any(v["rule"].startswith("C10.8") for v in res.violations) else 0
+    res.rule("C10.9 the box expansion is assembled from / handed down to the level-1 cells at their true child positions: every kernel call of the two top trees has role-coherent arguments (rule C02.1 on the 2 x 6 top-tree call sites: expansions and position codes of the same cells, codes = child position of the cell's index, never a running counter)")
+    import c02
+    import effects
+    import coherence
+    sub = tbf.Result("C02")
+    cmap9 = effects.container_map(facts)
+    n9 = 0
+    for tcls in CLASSES:
+        for fn9, sr9, call9, op9, slots9 in c02.toptree_calls(facts, tcls, cmap9):
+            c02.role_coherence(facts, fn9, sr9, call9, op9, slots9, sub)
+            n9 += 1
+    for v in sub.violations:
+        res.violation("C10.9.true-child-positions", v["file"], v["function"], v["key"], v["line"], v["msg"] + " - the images handled by the virtual levels reach the particles displaced by fractions of the box width")
+    res.instance("C10.9.true-child-positions", "top-tree kernel calls", "src/algorithms/periodic", "%d call sites role-coherent" % n9)
+    res.floor("C10.9", n9, 12, "top-tree kernel call sites")
     morton_nb = morton_interactions(facts)
     res.instance("C10.2.window-extent", "getNbInteractionsPerCell", "src/spacial/tbfmortonspaceindex.hpp", "%d^Dim - %d^Dim" % morton_nb)
     summ = {}
